@@ -22,7 +22,8 @@ EXTENDS Integers, Sequences, FiniteSets, TLC, Json
 CONSTANTS
     Canon,          \* the canonical field order of the file: <<"score", "geom1", ..., "class">>
     InitTables,     \* set of admissible initial tables
-    Ops,            \* subset of {"swap", "write_motl", "write_emmotl", "load", "adopt", "droprow", "duprows"} enabled
+    Ops,            \* subset of {"swap", "write_motl", "write_emmotl", "load", "adopt", "droprow", "duprows", "derive",
+                    \*            "edit_derived", "edit_source", "write_derived"} enabled
     PfSet,          \* forms of the file-name argument offered: subset of {"str", "path"} (str / pathlib.Path)
     TsSet,          \* spellings of the motl_type option of Motl.write_out offered: subset of {"emmotl", "EMMOTL", "EmMotl"}
     LtSet,          \* motl_type of Motl.load: subset of {"omitted", "emmotl"}
@@ -32,8 +33,8 @@ CONSTANTS
     EmitMode,       \* "none" | "hist" (complete behaviours through the hist variable)
     Writer          \* "byname" | "positional"
 
-VARIABLES tbl, disk, src, mem, op, d, hist
-vars == <<tbl, disk, src, mem, op, d, hist>>
+VARIABLES tbl, der, disk, src, mem, op, d, hist
+vars == <<tbl, der, disk, src, mem, op, d, hist>>
 
 W == Len(Canon)
 Fields == {Canon[k] : k \in 1..W}
@@ -43,6 +44,7 @@ Fields == {Canon[k] : k \in 1..W}
 Raw(t) == [k |-> "raw", t |-> t]
 Hole == [k |-> "hole", t |-> 0]
 Zero == [k |-> "zero", t |-> 0]
+Num(n) == [k |-> "num", t |-> n]          \* a small non-negative integer written by a public method (a new identifier, a class)
 \* what lands in a float32 file / comes back from it: holes become 0, float64 tokens are narrowed, float32 stays
 F32(v) == CASE v.k = "hole" -> Zero
             [] v.k = "raw"  -> [k |-> "f32", t |-> v.t]
@@ -86,19 +88,20 @@ Decode(D) == [order |-> Canon,
 -----------------------------------------------------------------------------
 \* wire format of values and tables for the drivers: Raw(t) -> t, F32 image of t -> -t, Zero -> 0, Hole -> HoleCode
 HoleCode == 1000000
-VJ(v) == CASE v.k = "raw" -> v.t [] v.k = "f32" -> 0 - v.t [] v.k = "zero" -> 0 [] OTHER -> HoleCode
+NumBase == 2000000
+VJ(v) == CASE v.k = "raw" -> v.t [] v.k = "f32" -> 0 - v.t [] v.k = "zero" -> 0 [] v.k = "num" -> NumBase + v.t [] OTHER -> HoleCode
 TJ(T) == [order |-> T.order, cells |-> [r \in 1..NRows(T) |-> [i \in 1..Len(T.cells[r]) |-> VJ(T.cells[r][i])]]]
 DJ(D) == [dims |-> D.dims, mode |-> D.mode, payload |-> [q \in 1..Len(D.payload) |-> VJ(D.payload[q])]]
 
 -----------------------------------------------------------------------------
 Step(o) == /\ op' = o
            /\ d' = d + 1
-           /\ hist' = IF EmitMode = "hist" THEN Append(hist, [op |-> o, tbl |-> tbl', disk |-> disk', mem |-> mem']) ELSE hist
+           /\ hist' = IF EmitMode = "hist" THEN Append(hist, [op |-> o, tbl |-> tbl', der |-> der', disk |-> disk', mem |-> mem']) ELSE hist
 
 \* re-building the list from the same table with two columns exchanged (generates every column order)
 SwapCols(i, j) == /\ "swap" \in Ops
                   /\ tbl' = SwapT(tbl, i, j)
-                  /\ UNCHANGED <<disk, src, mem>>
+                  /\ UNCHANGED <<der, disk, src, mem>>
                   /\ Step([name |-> "swap", i |-> i, j |-> j])
 
 \* Motl(df).write_out(path, "emmotl")  and  EmMotl(df [, header = h]).write_out(path).
@@ -114,7 +117,7 @@ WriteVia(path, h, pf, ts) ==
                      /\ (path = "write_motl") = (ts # "na")
                      /\ disk' = Encode(tbl)
                      /\ src' = tbl
-                     /\ UNCHANGED <<tbl, mem>>
+                     /\ UNCHANGED <<tbl, der, mem>>
                      /\ Step([name |-> path, hdr |-> h, hn |-> IF h = "other" THEN OtherN(NRows(tbl)) ELSE 0,
                               pf |-> pf, ts |-> ts])
 
@@ -122,12 +125,12 @@ WriteVia(path, h, pf, ts) ==
 DropRow(r) == /\ "droprow" \in Ops
               /\ NRows(tbl) >= 2
               /\ tbl' = [tbl EXCEPT !.cells = [k \in 1..(NRows(tbl) - 1) |-> IF k < r THEN tbl.cells[k] ELSE tbl.cells[k + 1]]]
-              /\ UNCHANGED <<disk, src, mem>>
+              /\ UNCHANGED <<der, disk, src, mem>>
               /\ Step([name |-> "droprow", r |-> r])
 DupRows == /\ "duprows" \in Ops
            /\ NRows(tbl) <= 3
            /\ tbl' = [tbl EXCEPT !.cells = tbl.cells \o tbl.cells]
-           /\ UNCHANGED <<disk, src, mem>>
+           /\ UNCHANGED <<der, disk, src, mem>>
            /\ Step([name |-> "duprows"])
 
 \* Motl.load(path)
@@ -135,7 +138,7 @@ Load(pf, lt) ==
         /\ "load" \in Ops
         /\ IsMotlFile(disk)
         /\ mem' = Decode(disk)
-        /\ UNCHANGED <<tbl, disk, src>>
+        /\ UNCHANGED <<tbl, der, disk, src>>
         /\ Step([name |-> "load", pf |-> pf, lt |-> lt])
 
 \* go on working with the list that was loaded
@@ -143,16 +146,56 @@ Adopt == /\ "adopt" \in Ops
          /\ mem # NoTable
          /\ mem # tbl
          /\ tbl' = mem
-         /\ UNCHANGED <<disk, src, mem>>
+         /\ UNCHANGED <<der, disk, src, mem>>
          /\ Step([name |-> "adopt"])
+
+\* ---- a second list object derived from the list at hand: EmMotl(EmMotl), Motl.load(object), EmMotl(object.df).
+\* The derived object holds the same particles and shares no state with its source: editing either in place through
+\* a public method (renumber_particles: subtomogram numbers 1..N; fill({"class": 5})) leaves the other what it was.
+\* The EmMotl constructor replaces missing values by 0 (Filled); Motl.load(object) is a deep copy.  The copy constructor
+\* EmMotl(EmMotl) needs the list at hand to be an EmMotl - whose table, therefore, has no missing values either.
+Filled(T) == [T EXCEPT !.cells = [r \in 1..NRows(T) |-> [i \in 1..Len(T.cells[r]) |->
+                                     IF T.cells[r][i].k = "hole" THEN Zero ELSE T.cells[r][i]]]]
+RenumField == IF W = 20 THEN "subtomo_id" ELSE Canon[1]
+FillField == IF W = 20 THEN "class" ELSE Canon[W]
+SetCol(T, f, V(_)) == LET p == Pos(T.order, f)
+                      IN  [T EXCEPT !.cells = [r \in 1..NRows(T) |-> [T.cells[r] EXCEPT ![p] = V(r)]]]
+EditT(T, kind) == IF kind = "renumber" THEN LET V(r) == Num(r) IN SetCol(T, RenumField, V)
+                  ELSE LET V(r) == Num(5) IN Filled(SetCol(T, FillField, V))      \* (Motl.fill ends with fillna(0.0))
+
+Derive(form) == /\ "derive" \in Ops
+                /\ der' = IF form = "load_object" THEN tbl ELSE Filled(tbl)
+                /\ tbl' = IF form = "emmotl_of_emmotl" THEN Filled(tbl) ELSE tbl
+                /\ UNCHANGED <<disk, src, mem>>
+                /\ Step([name |-> "derive", form |-> form])
+EditDerived(kind) == /\ "edit_derived" \in Ops
+                     /\ der # NoTable
+                     /\ der' = EditT(der, kind)
+                     /\ der' # der
+                     /\ UNCHANGED <<tbl, disk, src, mem>>
+                     /\ Step([name |-> "edit_derived", kind |-> kind])
+EditSource(kind) == /\ "edit_source" \in Ops
+                    /\ der # NoTable
+                    /\ tbl' = EditT(tbl, kind)
+                    /\ tbl' # tbl
+                    /\ UNCHANGED <<der, disk, src, mem>>
+                    /\ Step([name |-> "edit_source", kind |-> kind])
+WriteDerived(pf) == /\ "write_derived" \in Ops
+                    /\ der # NoTable
+                    /\ disk' = Encode(der)
+                    /\ src' = der
+                    /\ UNCHANGED <<tbl, der, mem>>
+                    /\ Step([name |-> "write_derived", pf |-> pf])
+DeriveForms == {"emmotl_of_emmotl", "load_object", "emmotl_of_table"}
 
 Init == /\ tbl \in InitTables
         /\ disk = NoFile
         /\ src = NoTable
         /\ mem = NoTable
+        /\ der = NoTable
         /\ op = [name |-> "init"]
         /\ d = 0
-        /\ hist = IF EmitMode = "hist" THEN <<[op |-> [name |-> "init"], tbl |-> tbl, disk |-> disk, mem |-> mem]>> ELSE <<>>
+        /\ hist = IF EmitMode = "hist" THEN <<[op |-> [name |-> "init"], tbl |-> tbl, der |-> der, disk |-> disk, mem |-> mem]>> ELSE <<>>
 
 Next == /\ d < MaxDepth
         /\ \/ \E i, j \in SwapPos : i < j /\ SwapCols(i, j)
@@ -161,6 +204,9 @@ Next == /\ d < MaxDepth
            \/ \E r \in 1..NRows(tbl) : DropRow(r)
            \/ DupRows
            \/ \E pf \in PfSet, lt \in LtSet : Load(pf, lt)
+           \/ \E form \in DeriveForms : Derive(form)
+           \/ \E kind \in {"renumber", "fillclass"} : EditDerived(kind) \/ EditSource(kind)
+           \/ \E pf \in PfSet : WriteDerived(pf)
            \/ Adopt
 
 Spec == Init /\ [][Next]_vars
@@ -186,7 +232,7 @@ C01_RoundTrip ==
           /\ NRows(mem') = NRows(src)
           /\ \A r \in 1..NRows(src) : \A f \in Fields :
                  /\ Cell(mem', r, f) = F32(Cell(src, r, f))
-                 /\ Cell(mem', r, f).k \in {"f32", "zero"}]_vars
+                 /\ Cell(mem', r, f).k \in {"f32", "zero", "num"}]_vars
 
 \* whatever the column order of the table: exchanging columns never changes the file ...
 C01_OrderIrrelevantStep == [][op'.name = "swap" => Encode(tbl') = Encode(tbl) /\ Canonical(tbl') = Canonical(tbl)]_vars
@@ -199,12 +245,21 @@ C01_OrderIrrelevant == Encode(tbl) = Encode(Canonical(tbl))
 C01_WriteKeepsTable == [][IsWrite(op') => tbl' = tbl]_vars
 C01_ResultsPersist == [][op'.name # "load" => mem' = mem]_vars
 
+\* list objects do not share state: deriving leaves the source alone and hands out the same particles; editing the
+\* derived object leaves the source what it was, and the other way round; the derived object writes what IT holds
+C01_ObjectsIndependent ==
+    [][/\ op'.name = "derive" => Encode(der') = Encode(tbl) /\ Encode(tbl') = Encode(tbl) /\ Filled(der') = Filled(tbl)
+       /\ op'.name = "edit_derived" => tbl' = tbl
+       /\ op'.name = "edit_source" => der' = der
+       /\ op'.name = "write_derived" => disk' = Encode(der) /\ tbl' = tbl /\ der' = der]_vars
+
 C01_PathsAgree == [][IsWrite(op') => disk' = Encode(Canonical(tbl))]_vars
 
 \* writing what was loaded reproduces the file (float32 values are their own rounding)
 C01_Idempotent == IsMotlFile(disk) => Encode(Decode(disk)) = disk
 
 TypeOK == /\ IsTable(tbl)
+          /\ der = NoTable \/ IsTable(der)
           /\ disk = NoFile \/ IsMotlFile(disk)
           /\ mem = NoTable \/ IsTable(mem)
           /\ d \in 0..MaxDepth
@@ -228,7 +283,7 @@ EmitHist == \/ EmitMode # "hist"
             \/ d < MaxDepth
             \/ PrintT(ToJson([hist |-> [i \in 1..Len(hist) |->
                     [op |-> hist[i].op,
-                     post |-> [tbl |-> TJ(hist[i].tbl), disk |-> DJ(hist[i].disk), mem |-> TJ(hist[i].mem)]]]]))
+                     post |-> [tbl |-> TJ(hist[i].tbl), der |-> TJ(hist[i].der), disk |-> DJ(hist[i].disk), mem |-> TJ(hist[i].mem)]]]]))
 
 \* ACTION_CONSTRAINT for the route run: write, load, go on with the loaded list, filter / extend it, let it write itself
 RouteOnly == CASE d = 0 -> IsWrite(op')
@@ -237,8 +292,15 @@ RouteOnly == CASE d = 0 -> IsWrite(op')
                [] d = 3 -> op'.name \in {"droprow", "duprows"}
                [] OTHER -> op'.name = "write_emmotl"
 
+\* ACTION_CONSTRAINT for the derive run: derive a second object, edit one of the two, write one of the two, load
+DeriveOnly == CASE d = 0 -> op'.name = "derive"
+                [] d = 1 -> op'.name \in {"edit_derived", "edit_source"}
+                [] d = 2 -> op'.name \in {"write_emmotl", "write_derived"}
+                [] OTHER -> op'.name = "load"
+EmitDeriveHist == IF d < MaxDepth THEN TRUE ELSE IF op.name = "load" THEN EmitHist ELSE FALSE
+
 \* CONSTRAINT of the route run: only complete routes are printed
 EmitRouteHist == IF d < MaxDepth THEN TRUE ELSE IF op.name = "write_emmotl" THEN EmitHist ELSE FALSE
 
-View == <<tbl, disk, src, mem>>
+View == <<tbl, der, disk, src, mem>>
 =============================================================================
